@@ -95,6 +95,29 @@ impl Property for C01 {
         Ok(())
     }
     fn extra(&self, tier: Tier, seed: u64, st: &mut Stats) -> Result<(), (Failure, Value)> {
+        // small-scope exhaustive part: every ordered pair / triple of small documents must be admitted
+        let scopes: &[(usize, usize)] = match tier {
+            Tier::Quick => &[(3, 2), (2, 3)],
+            Tier::Thorough => &[(4, 2), (3, 3)],
+        };
+        for (max_nodes, arity) in scopes {
+            let (evals, nts, fail) = super::smallscope::run_tuples(*max_nodes, *arity, |docs, bytes| {
+                let root = crate::sut::parse_seq(bytes).map_err(|(i, e)| format!("document #{} rejected: {}", i + 1, e))?;
+                let src = root.to_serde_struct(&Options::quick_xml_de());
+                let defs = crate::rendered::read_lines(&src).map_err(|e| format!("output unreadable: {}\n{}", e, src))?;
+                let tree = crate::rendered::build_tree(&defs, "@", "$text").map_err(|e| format!("not a tree: {}\n{}", e, src))?;
+                for (i, d) in docs.iter().enumerate() {
+                    admits(d, &tree, "").map_err(|e| format!("document #{} is not described by the rendered structs: {}\n{}", i + 1, e, src))?;
+                }
+                Ok(docs.len() >= 2)
+            });
+            st.evaluations += evals;
+            st.nontrivial_enumerated += nts;
+            st.add(&format!("exhaustive.nodes<={}.sequences_of_{}", max_nodes, arity), evals);
+            if let Some((e, docs)) = fail {
+                return Err((Failure::new(format!("small-scope exhaustive search: {}", e)).with_detail(json!({"documents": docs})), json!({"small_scope_documents": docs})));
+            }
+        }
         if tier == Tier::Thorough {
             let runs = std::env::var("XSGV_FUZZ_RUNS").ok().and_then(|s| s.parse().ok()).unwrap_or(125_000u64);
             let seeds: Vec<Vec<u8>> = crate::runner::gen_tapes(self, seed ^ 0x7a9e, 200)
@@ -113,6 +136,10 @@ impl Property for C01 {
         Ok(())
     }
     fn replay_custom(&self, payload: &Value) -> Result<(), Failure> {
+        if let Some(docs) = payload["small_scope_documents"].as_array() {
+            // the C03 replay rebuilds the DOM of canonical documents; admits() is implied by its exact comparison
+            return crate::props::c03::C03.replay_custom(payload);
+        }
         match crate::fuzzrun::replay(payload) {
             // the tape target runs the oracles of several properties; only this property's verdict counts here
             Some(Err(f)) if f.msg.starts_with("C01:") => Err(f),
@@ -120,7 +147,7 @@ impl Property for C01 {
         }
     }
     fn rule(&self) -> String {
-        "tape-decoded sequences of 1..5 well-formed documents (all name classes, full surface variation, 1 in 8 wide); every source document is walked against the struct tree read from the rendering (attributes/children bound, required fields present, non-Vec fields at most once, character data only where a text field or String exists). Non-trivial = the sequence forces at least one Option or Vec decision (an attribute or child absent from some occurrence, or a repeated child); distinct by hash of the structural documents.".into()
+        "small-scope exhaustive: all ordered pairs of documents over {r; a,b; attribute k; text} with <= 3 elements and all triples with <= 2 (thorough: <= 4 / <= 3); sampled: tape-decoded sequences of 1..5 well-formed documents (all name classes, full surface variation, 1 in 8 wide); every source document is walked against the struct tree read from the rendering (attributes/children bound, required fields present, non-Vec fields at most once, character data only where a text field or String exists). Non-trivial = the sequence forces at least one Option or Vec decision (an attribute or child absent from some occurrence, or a repeated child); distinct by hash of the structural documents.".into()
     }
     fn assumptions(&self) -> Vec<String> {
         vec![
@@ -131,6 +158,9 @@ impl Property for C01 {
     }
     fn describe(&self, tapes: &Tapes) -> Value {
         describe_case(&prepare(tapes, &Domain::general(), &SurfaceCfg::full()))
+    }
+    fn exhaustive(&self) -> bool {
+        true
     }
     fn health(&self, _tier: Tier) -> Vec<(&'static str, u64)> {
         vec![("nontrivial", 5000), ("optional_child_reseen", 500), ("vec_only_in_later_document", 500), ("k>=3", 1000), ("prefixed_names", 1000), ("surface.both_empty_forms", 1000), ("surface.cdata", 1000)]
